@@ -370,11 +370,48 @@ def r15_9(ctx: Ctx) -> None:
     for r in refusals:
         rn = q.node_for(wf, r)
         # on the append path a header write precedes the refusal
-        hw = [c for c in q.calls(wf) if attr_tail(c) == "_write_header" and cfg.reaches(q.node_for(wf, c), rn) and any(
-            pol and "mode" in norm(cd) for cd, pol in q.facts_at(wf, c))]
+        hw = [c for c in q.calls(wf) if attr_tail(c) == "_write_header" and cfg.reaches(q.node_for(wf, c), rn) and _restoring_write(wf, c)]
         ctx.check(bool(hw), "R15.9", wf, r, "a refused append session puts a header back before it gives up",
                   "_write_flush refuses to complete a broken session without writing any header: in append mode the old header has been overwritten by the session's data by then, "
                   "so the archive that existed before the session cannot be opened any more and all its members are lost", construct="refusal without header in append mode")
+
+
+def _restoring_write(wf, x: ast.Call) -> bool:
+    """is this `_write_header` call the write-back of the header the archive had at open?  It stands under `"a" in self.mode` TRUE (not
+    `not in`), not under `_header_at_open is None`, and `self.header = self._header_at_open` comes before it on the way."""
+    facts = q.facts_at(wf, x)
+    append = any(pol and isinstance(cd, ast.Compare) and "mode" in norm(cd) and isinstance(cd.ops[0], (ast.In, ast.Eq)) and any(isinstance(y, ast.Constant) and y.value == "a" for y in ast.walk(cd))
+                 for cd, pol in facts) or any((not pol) and isinstance(cd, ast.Compare) and "mode" in norm(cd) and isinstance(cd.ops[0], (ast.NotIn, ast.NotEq)) and
+                                              any(isinstance(y, ast.Constant) and y.value == "a" for y in ast.walk(cd)) for cd, pol in facts)
+    absent = any((nt := q.is_none_test(cd)) is not None and "_header_at_open" in norm(nt[0]) and nt[1] == pol for cd, pol in facts)
+    cfg = cfg_of(wf.node)
+    swaps = [n for n in walk(wf.node) if isinstance(n, ast.Assign) and norm(n.targets[0]) == "self.header" and norm(n.value) == "self._header_at_open"]
+    swapped = any(cfg.dominates(q.node_for(wf, n), q.node_for(wf, x)) for n in swaps)
+    return append and not absent and swapped
+
+
+def r15_13(ctx: Ctx) -> None:
+    """(a) the snapshot the fallback needs is taken: _prepare_append stores a copy (copy.deepcopy / copy.copy) of the parsed header in
+    `_header_at_open` on every path; (b) a `with` block does not end quietly when close() could not complete the session: the ArchiveError
+    handler of __exit__ re-raises when the block itself raised nothing (`exc_type is None`) - swallowing it would turn a lost session into
+    a successful-looking one."""
+    pa = shared.szf(ctx, "_prepare_append")
+    cfg = cfg_of(pa.node)
+    snaps = [n for n in walk(pa.node) if isinstance(n, ast.Assign) and norm(n.targets[0]) == "self._header_at_open" and isinstance(n.value, ast.Call)
+             and (dotted(n.value.func) or "").startswith("copy.") and n.value.args and norm(n.value.args[0]) == "self.header"]
+    ok = bool(snaps) and cfg.every_path_to_exit_passes(cfg.entry, [q.node_for(pa, n) for n in snaps])
+    ctx.check(ok, "R15.13", pa, snaps[0] if snaps else pa.node, "an append session keeps a copy of the header it found",
+              "_prepare_append does not store a copy of the parsed header in `_header_at_open` (on every path): a session that cannot be completed has nothing to fall back to, "
+              "close() leaves the placeholder start header and every member the archive had is lost", construct="no header snapshot")
+    ex = shared.szf(ctx, "__exit__")
+    hs = [h for h in walk(ex.node) if isinstance(h, ast.ExceptHandler)]
+    for h in hs:
+        raises = [r for r in ast.walk(h) if isinstance(r, ast.Raise)]
+        ok = any(any((nt := q.is_none_test(cd)) is not None and norm(nt[0]) == ex.params[1] and nt[1] == pol for cd, pol in q.facts_at(ex, r)) or not q.facts_at(ex, r) for r in raises)
+        ctx.check(ok, "R15.13", ex, h, "__exit__ lets close()'s error out when the block raised nothing",
+                  f"the `except {norm(h.type) if h.type else ''}` handler of __exit__ does not re-raise when `{ex.params[1]} is None`: a `with` block whose session could not be "
+                  "completed (a source failed midway) ends without any error and the caller takes the archive for written", construct="__exit__ swallows the close error")
+    ctx.floor("R15.13", len(hs) + 1, 1, "snapshot / __exit__ obligations")
 
 
 def r15_10(ctx: Ctx, rule: str = "R15.10") -> None:
@@ -414,8 +451,7 @@ def r15_10(ctx: Ctx, rule: str = "R15.10") -> None:
         for t in [t for t in walk(wf.node) if isinstance(t, ast.Try) and any(c in list(ast.walk(st)) for st in t.body)]:
             for h in t.handlers:
                 broad = h.type is None or any(isinstance(x, ast.Name) and x.id in ("Exception", "BaseException") for x in ast.walk(h.type))
-                restores = [x for st in h.body for x in ast.walk(st) if isinstance(x, ast.Call) and attr_tail(x) == "_write_header"
-                            and any(pol and "mode" in norm(cd) for cd, pol in q.facts_at(wf, x))]
+                restores = [x for st in h.body for x in ast.walk(st) if isinstance(x, ast.Call) and attr_tail(x) == "_write_header" and _restoring_write(wf, x)]
                 reraises = bool(h.body) and isinstance(h.body[-1], ast.Raise)
                 if broad and restores and reraises:
                     ok = True
@@ -472,6 +508,7 @@ def r15_12(ctx: Ctx) -> None:
 
 
 def run(ctx: Ctx) -> None:
+    r15_13(ctx)
     r15_12(ctx)
     r15_11(ctx)
     r15_10(ctx)
